@@ -27,6 +27,7 @@ TStep == /\ l <= Len(Tr)
          /\ Clause("objects", HeapMatches(heap', env', E.heap))
          /\ Clause("identity", AliasMatches(env', E.same))
          /\ Clause("wellformed", WellFormed')
+         /\ Clause("index-arguments-unchanged", E.idxok)
 TDone == l = Len(Tr) + 1 /\ PrintT(<<"ACCEPT", tid>>) /\ UNCHANGED vars
 TInit == Init /\ tid \in 1..Len(Traces) /\ l = 1
 TNext == (TStep \/ TDone) /\ l' = l + 1 /\ UNCHANGED tid
